@@ -756,7 +756,35 @@ def total_cases():
                 yield {"hex": (pre + core + post).hex()}
 
 
+# ---------------------------------------------------------------------------------------------
+# sub: switch  {"hex": bytes}   the same byte string measured under alternating encodings
+
+
+SWITCH_ORDER = ["utf-8", "euc-jp", "iso8859-1", "utf-8", "iso8859-1", "euc-jp", "utf-8"]
+
+
+def check_switch(case):
+    """One byte string, measured under utf-8, a wide codec and a narrow one in immediate succession and again:
+    every answer depends on the encoding that is active *now* (nothing may be remembered across set_encoding)."""
+    text = bytes.fromhex(case["hex"])
+    for enc in SWITCH_ORDER:
+        mode = _set_enc(enc)
+        check_text(text, mode, enc, strict=_strictness(text, mode, enc), trim_all_pairs=False)
+
+
+def switch_cases(max_units):
+    """concatenations of <= max_units units: ASCII letters and byte pairs that are one double-width character in the
+    wide reading (EUC shape), two one-column characters in the narrow reading and one one-column character in
+    utf-8 (C3 A9 = e-acute)"""
+    # pairs that are valid in all three readings (invalid UTF-8 has its own sub-checks and known findings)
+    units = [b"a", b"Z", b" "] + [bytes([a, b]) for a in (0xC2, 0xC3, 0xCE) for b in (0xA2, 0xA9, 0xB1)]
+    for n in range(1, max_units + 1):
+        for t in itertools.product(units, repeat=n):
+            yield {"hex": b"".join(t).hex()}
+
+
 SUBS = {
+    "switch": check_switch,
     "codepoint": check_codepoint,
     "cp_enc": check_cp_enc,
     "bytes2": check_bytes2,
@@ -956,6 +984,10 @@ def shard(ctx):
     section("dec", lambda: ctx.sweep(
         "dec", dec_cases(ctx.scale(4, 5)), nontrivial=_dec_nt, classify=_dec_class,
         exhaustive_name="every DEC special character alone / paired / in short strings"))
+    # 5a. the same bytes under alternating encodings
+    section("switch", lambda: ctx.sweep(
+        "switch", switch_cases(ctx.scale(3, 4)), nontrivial=lambda c: True, classify=lambda c: ["switch"],
+        exhaustive_name="every string of <= 3 (4) ASCII / EUC-pair units measured under 7 alternating encodings"))
     # 5b. totality on 4-byte forms above U+10FFFF (no width oracle there)
     section("total", lambda: ctx.sweep(
         "total", total_cases(), classify=lambda c: ["total:utf8-above-U+10FFFF"],
